@@ -444,6 +444,40 @@ func selectLoop(f *ssa.Function) map[*ssa.BasicBlock]bool {
 	return res
 }
 
+func keys(m map[string]bool) []string {
+	var r []string
+	for k := range m {
+		r = append(r, k)
+	}
+	sort.Strings(r)
+	return r
+}
+
+func tlaSet(xs []string) string {
+	var q []string
+	for _, x := range xs {
+		q = append(q, tlaStr(x))
+	}
+	return "{" + strings.Join(q, ", ") + "}"
+}
+
+// segSets: classes only read / classes written in a section.
+func segSets(sg *segOut) (rs, ws []string) {
+	wr := map[string]bool{}
+	for _, ac := range sg.Acc {
+		if ac.RW == "W" {
+			wr[ac.Class] = true
+		}
+	}
+	rd := map[string]bool{}
+	for _, ac := range sg.Acc {
+		if ac.RW == "R" && !wr[ac.Class] {
+			rd[ac.Class] = true
+		}
+	}
+	return keys(rd), keys(wr)
+}
+
 func tlaStr(s string) string { return "\"" + strings.ReplaceAll(s, "\"", "'") + "\"" }
 
 func renderTLA(module string, ops []*opOut, locks []string) string {
@@ -474,6 +508,7 @@ func renderTLA(module string, ops []*opOut, locks []string) string {
 			sb.WriteString(tlaStr(t))
 		}
 		sb.WriteString("}, steps |-> <<")
+		rall, wall := map[string]bool{}, map[string]bool{}
 		segByID := map[int]*segOut{}
 		for _, s := range o.Segs {
 			segByID[s.ID] = s
@@ -485,33 +520,23 @@ func renderTLA(module string, ops []*opOut, locks []string) string {
 			sb.WriteString("\n     ")
 			switch st.K {
 			case "acq":
-				fmt.Fprintf(&sb, "[k |-> \"acq\", l |-> %s, m |-> %s, seg |-> 0, acc |-> {}]", tlaStr(st.L), tlaStr(st.M))
+				fmt.Fprintf(&sb, "[k |-> \"acq\", l |-> %s, m |-> %s, seg |-> 0, rs |-> {}, ws |-> {}]", tlaStr(st.L), tlaStr(st.M))
 			case "rel":
-				fmt.Fprintf(&sb, "[k |-> \"rel\", l |-> %s, m |-> \"\", seg |-> 0, acc |-> {}]", tlaStr(st.L))
+				fmt.Fprintf(&sb, "[k |-> \"rel\", l |-> %s, m |-> \"\", seg |-> 0, rs |-> {}, ws |-> {}]", tlaStr(st.L))
 			case "sec":
-				fmt.Fprintf(&sb, "[k |-> \"sec\", l |-> \"\", m |-> \"\", seg |-> %d, acc |-> {", st.Seg)
 				// a write subsumes the read of the same class
-				wr := map[string]bool{}
-				for _, ac := range segByID[st.Seg].Acc {
-					if ac.RW == "W" {
-						wr[ac.Class] = true
-					}
+				rs, ws := segSets(segByID[st.Seg])
+				for _, c := range rs {
+					rall[c] = true
 				}
-				first := true
-				for _, ac := range segByID[st.Seg].Acc {
-					if ac.RW == "R" && wr[ac.Class] {
-						continue
-					}
-					if !first {
-						sb.WriteString(", ")
-					}
-					first = false
-					fmt.Fprintf(&sb, "<<%s, %s>>", tlaStr(ac.Class), tlaStr(ac.RW))
+				for _, c := range ws {
+					wall[c] = true
 				}
-				sb.WriteString("}]")
+				fmt.Fprintf(&sb, "[k |-> \"sec\", l |-> \"\", m |-> \"\", seg |-> %d, rs |-> %s, ws |-> %s]", st.Seg, tlaSet(rs), tlaSet(ws))
 			}
 		}
-		sb.WriteString(">>]")
+		sb.WriteString(">>,\n   rall |-> " + tlaSet(keys(rall)) + ",\n   wall |-> " + tlaSet(keys(wall)))
+		sb.WriteString("]")
 	}
 	sb.WriteString("\n>>\n\n")
 	sb.WriteString("\\* concurrency relation (see Locks.tla)\n")
